@@ -408,4 +408,401 @@ theorem LogSinh.state_jacobian_set (s : LogSinh.State ℝ) (x xm : ℝ) (h : s.x
   cases s with
   | mk a b xm' => cases h; rfl
 
+/-! ### BoxCox2sym — odd extension `sign(x) (BC(|x|) - BC(0))`, Jacobian `BC'(|x|)`: the derivative on each
+half-line, and — because both one-sided derivatives at 0 equal `BC'(0)` — also at `x = 0` when `nu > 0` -/
+
+theorem BoxCox2sym.fwd_of_pos (p : BoxCox2sym.Params ℝ) {t : ℝ} (ht : 0 < t) :
+    BoxCox2sym.fwd p t = BoxCox2.fwd (BoxCox2sym.toBC p) t - BoxCox2sym.y0 p := by
+  simp only [BoxCox2sym.fwd, C01.sign_pos ht, absv_eq, abs_of_pos ht, one_mul]
+
+theorem BoxCox2sym.fwd_of_neg (p : BoxCox2sym.Params ℝ) {t : ℝ} (ht : t < 0) :
+    BoxCox2sym.fwd p t = -(BoxCox2.fwd (BoxCox2sym.toBC p) (-t) - BoxCox2sym.y0 p) := by
+  simp only [BoxCox2sym.fwd, C01.sign_neg ht, absv_eq, abs_of_neg ht, neg_mul, one_mul]
+
+theorem BoxCox2sym.fwd_zero (p : BoxCox2sym.Params ℝ) : BoxCox2sym.fwd p 0 = 0 := by
+  simp only [BoxCox2sym.fwd, C01.sign_zero, zero_mul]
+
+theorem BoxCox2sym.hasDerivAt_of_pos (p : BoxCox2sym.Params ℝ) (x : ℝ) (hx : 0 < x) (hd : 0 < x + p.nu) :
+    HasDerivAt (fun t => BoxCox2sym.fwd p t) (BoxCox2sym.jac p x) x := by
+  have hB : HasDerivAt (fun t => BoxCox2.fwd (BoxCox2sym.toBC p) t - BoxCox2sym.y0 p)
+      (BoxCox2.jac (BoxCox2sym.toBC p) x) x := (BoxCox2.hasDerivAt (BoxCox2sym.toBC p) x hd).sub_const _
+  have hev : (fun t => BoxCox2sym.fwd p t) =ᶠ[𝓝 x]
+      fun t => BoxCox2.fwd (BoxCox2sym.toBC p) t - BoxCox2sym.y0 p := by
+    filter_upwards [eventually_gt_nhds hx] with t ht
+    exact BoxCox2sym.fwd_of_pos p ht
+  have h := hB.congr_of_eventuallyEq hev
+  simpa only [BoxCox2sym.jac, absv_eq, abs_of_pos hx] using h
+
+theorem BoxCox2sym.hasDerivAt_of_neg (p : BoxCox2sym.Params ℝ) (x : ℝ) (hx : x < 0) (hd : 0 < -x + p.nu) :
+    HasDerivAt (fun t => BoxCox2sym.fwd p t) (BoxCox2sym.jac p x) x := by
+  have hB0 : HasDerivAt (fun t => BoxCox2.fwd (BoxCox2sym.toBC p) t) (BoxCox2.jac (BoxCox2sym.toBC p) (-x)) (-x) :=
+    BoxCox2.hasDerivAt (BoxCox2sym.toBC p) (-x) hd
+  have hB1 : HasDerivAt (fun t => BoxCox2.fwd (BoxCox2sym.toBC p) (-t))
+      (BoxCox2.jac (BoxCox2sym.toBC p) (-x) * -1) x := hB0.comp x (hasDerivAt_neg' x)
+  have hB : HasDerivAt (fun t => -(BoxCox2.fwd (BoxCox2sym.toBC p) (-t) - BoxCox2sym.y0 p))
+      (-(BoxCox2.jac (BoxCox2sym.toBC p) (-x) * -1)) x := (hB1.sub_const _).neg
+  have hev : (fun t => BoxCox2sym.fwd p t) =ᶠ[𝓝 x]
+      fun t => -(BoxCox2.fwd (BoxCox2sym.toBC p) (-t) - BoxCox2sym.y0 p) := by
+    filter_upwards [eventually_lt_nhds hx] with t ht
+    exact BoxCox2sym.fwd_of_neg p ht
+  have h := (hB.congr_of_eventuallyEq hev).congr_deriv (by ring : _ = BoxCox2.jac (BoxCox2sym.toBC p) (-x))
+  simpa only [BoxCox2sym.jac, absv_eq, abs_of_neg hx] using h
+
+/-- the junction: at `x = 0` the two one-sided derivatives coincide (`nu > 0`) -/
+theorem BoxCox2sym.hasDerivAt_zero (p : BoxCox2sym.Params ℝ) (hnu : 0 < p.nu) :
+    HasDerivAt (fun t => BoxCox2sym.fwd p t) (BoxCox2sym.jac p 0) 0 := by
+  have hd : BoxCox2.dom (BoxCox2sym.toBC p) 0 := by
+    simp only [BoxCox2.dom, BoxCox2sym.toBC, zero_add]; exact hnu
+  have hB0 := BoxCox2.hasDerivAt (BoxCox2sym.toBC p) 0 hd
+  have hj : BoxCox2sym.jac p 0 = BoxCox2.jac (BoxCox2sym.toBC p) 0 := by
+    simp only [BoxCox2sym.jac, absv_eq, abs_zero]
+  rw [hj]
+  have hy0 : BoxCox2sym.y0 p = BoxCox2.fwd (BoxCox2sym.toBC p) 0 := rfl
+  have hr : HasDerivWithinAt (fun t => BoxCox2sym.fwd p t) (BoxCox2.jac (BoxCox2sym.toBC p) 0) (Ici 0) 0 := by
+    have h1 : HasDerivAt (fun t => BoxCox2.fwd (BoxCox2sym.toBC p) t - BoxCox2sym.y0 p)
+        (BoxCox2.jac (BoxCox2sym.toBC p) 0) 0 := hB0.sub_const _
+    refine h1.hasDerivWithinAt.congr (fun t ht => ?_) ?_
+    · rcases eq_or_lt_of_le (show (0 : ℝ) ≤ t from ht) with h | h
+      · subst h; rw [BoxCox2sym.fwd_zero, hy0, sub_self]
+      · exact BoxCox2sym.fwd_of_pos p h
+    · rw [BoxCox2sym.fwd_zero, hy0, sub_self]
+  have hl : HasDerivWithinAt (fun t => BoxCox2sym.fwd p t) (BoxCox2.jac (BoxCox2sym.toBC p) 0) (Iic 0) 0 := by
+    have h1 : HasDerivAt (fun t => BoxCox2.fwd (BoxCox2sym.toBC p) (-t))
+        (BoxCox2.jac (BoxCox2sym.toBC p) 0 * -1) 0 :=
+      HasDerivAt.comp_of_eq (h := fun t : ℝ => -t) 0 hB0 (hasDerivAt_neg' 0) (by simp)
+    have h2 : HasDerivAt (fun t => -(BoxCox2.fwd (BoxCox2sym.toBC p) (-t) - BoxCox2sym.y0 p))
+        (BoxCox2.jac (BoxCox2sym.toBC p) 0) 0 :=
+      ((h1.sub_const _).neg).congr_deriv (by ring)
+    refine h2.hasDerivWithinAt.congr (fun t ht => ?_) ?_
+    · rcases eq_or_lt_of_le (show t ≤ (0 : ℝ) from ht) with h | h
+      · subst h; rw [BoxCox2sym.fwd_zero, neg_zero, hy0, sub_self, neg_zero]
+      · exact BoxCox2sym.fwd_of_neg p h
+    · rw [BoxCox2sym.fwd_zero, neg_zero, hy0, sub_self, neg_zero]
+  have hu := hl.union hr
+  rwa [Iic_union_Ici, hasDerivWithinAt_univ] at hu
+
+/-- every `x` when `nu > 0` -/
+theorem BoxCox2sym.hasDerivAt (p : BoxCox2sym.Params ℝ) (x : ℝ) (hnu : 0 < p.nu) :
+    HasDerivAt (fun t => BoxCox2sym.fwd p t) (BoxCox2sym.jac p x) x := by
+  rcases lt_trichotomy x 0 with h | h | h
+  · exact BoxCox2sym.hasDerivAt_of_neg p x h (by linarith)
+  · subst h; exact BoxCox2sym.hasDerivAt_zero p hnu
+  · exact BoxCox2sym.hasDerivAt_of_pos p x h (by linarith)
+
+theorem BoxCox2sym.jac_pos (p : BoxCox2sym.Params ℝ) (x : ℝ) (hd : 0 < |x| + p.nu) : 0 < BoxCox2sym.jac p x := by
+  simp only [BoxCox2sym.jac, absv_eq]
+  exact BoxCox2.jac_pos (BoxCox2sym.toBC p) |x| hd
+
+/-- where `_jacobian` returns a number: `|x| + nu > mininu` -/
+theorem BoxCox2sym.jacobian_spec (p : BoxCox2sym.Params ℝ) (x : ℝ) (hnu : 0 < p.nu) (hj : p.mininu < |x| + p.nu) :
+    ∃ j, BoxCox2sym.jacobian p x = some j ∧ 0 < j ∧ HasDerivAt (fun t => BoxCox2sym.fwd p t) j x := by
+  have hd : 0 < |x| + p.nu := by positivity
+  refine ⟨BoxCox2sym.jac p x, ?_, BoxCox2sym.jac_pos p x hd, BoxCox2sym.hasDerivAt p x hnu⟩
+  have hj' : (BoxCox2sym.toBC p).mininu < absv x + (BoxCox2sym.toBC p).nu := by
+    simpa only [BoxCox2sym.toBC, absv_eq] using hj
+  simp only [BoxCox2sym.jacobian, BoxCox2.jacobian, C01.guard, decide_eq_true hj', if_true, BoxCox2sym.jac]
+
+/-- `nu = 0` (constructor option `mininu = 0`), away from 0 -/
+theorem BoxCox2sym.jacobian_spec_nu_zero (p : BoxCox2sym.Params ℝ) (x : ℝ) (hnu : p.nu = 0) (hx : x ≠ 0)
+    (hj : p.mininu < |x| + p.nu) :
+    ∃ j, BoxCox2sym.jacobian p x = some j ∧ 0 < j ∧ HasDerivAt (fun t => BoxCox2sym.fwd p t) j x := by
+  have hd : 0 < |x| + p.nu := by rw [hnu, add_zero]; exact abs_pos.mpr hx
+  refine ⟨BoxCox2sym.jac p x, ?_, BoxCox2sym.jac_pos p x hd, ?_⟩
+  · have hj' : (BoxCox2sym.toBC p).mininu < absv x + (BoxCox2sym.toBC p).nu := by
+      simpa only [BoxCox2sym.toBC, absv_eq] using hj
+    simp only [BoxCox2sym.jacobian, BoxCox2.jacobian, C01.guard, decide_eq_true hj', if_true, BoxCox2sym.jac]
+  · rcases lt_or_gt_of_ne hx with h | h
+    · exact BoxCox2sym.hasDerivAt_of_neg p x h (by rw [hnu]; linarith)
+    · exact BoxCox2sym.hasDerivAt_of_pos p x h (by rw [hnu]; linarith)
+
+/-- strictly increasing on all of ℝ, across the junction at 0, whenever `BC(0) < BC(t)` for `t > 0` -/
+theorem BoxCox2sym.strictMono_of (p : BoxCox2sym.Params ℝ) (hnu : 0 ≤ p.nu)
+    (h0 : ∀ t, 0 < t → BoxCox2sym.y0 p < BoxCox2.fwd (BoxCox2sym.toBC p) t) :
+    StrictMono (fun t => BoxCox2sym.fwd p t) := by
+  have hlt : ∀ s t : ℝ, 0 < s → s < t → BoxCox2.fwd (BoxCox2sym.toBC p) s < BoxCox2.fwd (BoxCox2sym.toBC p) t :=
+    fun s t hs hst => BoxCox2.fwd_lt (BoxCox2sym.toBC p) (by simp only [BoxCox2sym.toBC]; linarith) hst
+  intro x y hxy
+  show BoxCox2sym.fwd p x < BoxCox2sym.fwd p y
+  rcases lt_trichotomy x 0 with hx | hx | hx
+  · rw [BoxCox2sym.fwd_of_neg p hx]
+    have hxn := h0 (-x) (neg_pos.mpr hx)
+    rcases lt_trichotomy y 0 with hy | hy | hy
+    · rw [BoxCox2sym.fwd_of_neg p hy]
+      have := hlt (-y) (-x) (neg_pos.mpr hy) (by linarith)
+      linarith
+    · subst hy; rw [BoxCox2sym.fwd_zero]; linarith
+    · rw [BoxCox2sym.fwd_of_pos p hy]
+      have := h0 y hy
+      linarith
+  · subst hx
+    rw [BoxCox2sym.fwd_zero, BoxCox2sym.fwd_of_pos p hxy]
+    have := h0 y hxy
+    linarith
+  · have hy : 0 < y := by linarith
+    rw [BoxCox2sym.fwd_of_pos p hx, BoxCox2sym.fwd_of_pos p hy]
+    have := hlt x y hx hxy
+    linarith
+
+theorem BoxCox2sym.strictMono (p : BoxCox2sym.Params ℝ) (hnu : 0 < p.nu) :
+    StrictMono (fun t => BoxCox2sym.fwd p t) :=
+  BoxCox2sym.strictMono_of p hnu.le fun t ht =>
+    BoxCox2.fwd_lt (BoxCox2sym.toBC p) (by simpa [BoxCox2sym.toBC] using hnu) ht
+
+/-- `nu = 0` on the power branch with `lam > 0` (`BC(0) = -1/lam`) -/
+theorem BoxCox2sym.strictMono_nu_zero (p : BoxCox2sym.Params ℝ) (hnu : p.nu = 0) (hl : lamBig p.lam = true)
+    (hpos : 0 < p.lam) : StrictMono (fun t => BoxCox2sym.fwd p t) := by
+  refine BoxCox2sym.strictMono_of p hnu.ge fun t ht => ?_
+  have hne := lamBig_true hl
+  simp only [BoxCox2sym.y0, BoxCox2.fwd, BoxCox2sym.toBC, hl, if_true, transc_pow, hnu, add_zero,
+    Real.zero_rpow hne]
+  rw [div_lt_div_iff_of_pos_right hpos]
+  have := Real.rpow_pos_of_pos ht p.lam
+  linarith
+
+theorem BoxCox2sym.state_jacobian_eq (s : BoxCox2sym.State ℝ) (x : ℝ) :
+    BoxCox2sym.State.jacobian s x =
+      (⟨s.nu, s.lam, ⟨s.nu, s.lam, s.bc.mininu⟩⟩, BoxCox2sym.jacobian ⟨s.nu, s.lam, s.bc.mininu⟩ x) := rfl
+
+/-! ### Yeo-Johnson — four formulas; `w = nu + scale x`, Jacobian `jacW(lam, w) * scale`.
+The derivative holds at every `x` with `w ≠ EPS` (the interior of the two branches); at `w = EPS` the two formulas
+meet with a mismatch below `3 EPS²` (zero for `lam = 1`), so monotonicity is exact on either side and holds up to
+that amount across the junction. -/
+
+theorem YeoJohnson.scale_pos (p : YeoJohnson.Params ℝ) (hp : YeoJohnson.admissible p) : 0 < p.scale := by
+  have h := hp.1
+  have : (0 : ℝ) < 1e-5 := by norm_num
+  linarith
+
+theorem YeoJohnson.hasDerivAt (p : YeoJohnson.Params ℝ) (x : ℝ) (hw : p.nu + x * p.scale ≠ eps) :
+    HasDerivAt (fun t => YeoJohnson.fwd p t) (YeoJohnson.jac p x) x := by
+  have hg : HasDerivAt (fun t => p.nu + t * p.scale) (1 * p.scale) x :=
+    ((hasDerivAt_id x).mul_const p.scale).const_add p.nu
+  have hW : HasDerivAt (YeoJohnson.fwdW p.lam) (YeoJohnson.jacW p.lam (p.nu + x * p.scale)) (p.nu + x * p.scale) := by
+    rcases lt_or_gt_of_ne hw with h | h
+    · exact YeoJohnson.hasDerivAt_fwdW_neg p.lam _ h
+    · exact YeoJohnson.hasDerivAt_fwdW_pos p.lam _ h
+  have h := hW.comp x hg
+  exact h.congr_deriv (by simp only [YeoJohnson.jac, one_mul])
+
+theorem YeoJohnson.jac_pos (p : YeoJohnson.Params ℝ) (x : ℝ) (hp : YeoJohnson.admissible p) :
+    0 < YeoJohnson.jac p x :=
+  mul_pos (YeoJohnson.jacW_pos p.lam _) (YeoJohnson.scale_pos p hp)
+
+theorem YeoJohnson.jacobian_spec (p : YeoJohnson.Params ℝ) (x : ℝ) (hp : YeoJohnson.admissible p)
+    (hw : p.nu + x * p.scale ≠ eps) :
+    ∃ j, YeoJohnson.jacobian p x = some j ∧ 0 < j ∧ HasDerivAt (fun t => YeoJohnson.fwd p t) j x :=
+  ⟨_, rfl, YeoJohnson.jac_pos p x hp, YeoJohnson.hasDerivAt p x hw⟩
+
+/-- strictly increasing on the half-line `w ≥ EPS` and on the half-line `w < EPS` -/
+theorem YeoJohnson.strictMonoOn_pos (p : YeoJohnson.Params ℝ) (hp : YeoJohnson.admissible p) :
+    StrictMonoOn (fun t => YeoJohnson.fwd p t) {x | eps ≤ p.nu + x * p.scale} := by
+  have hs := YeoJohnson.scale_pos p hp
+  intro x hx y hy hxy
+  have hx' : eps ≤ p.nu + x * p.scale := hx
+  have hy' : eps ≤ p.nu + y * p.scale := hy
+  have hw : p.nu + x * p.scale < p.nu + y * p.scale := by nlinarith
+  show YeoJohnson.fwd p x < YeoJohnson.fwd p y
+  simp only [YeoJohnson.fwd, C01.YeoJohnson.fwdW_eq, if_pos hx', if_pos hy']
+  exact YeoJohnson.posF_strictMonoOn p.lam (show _ ∈ Ioi (-1 : ℝ) by simp only [mem_Ioi]; linarith [eps_pos])
+    (show _ ∈ Ioi (-1 : ℝ) by simp only [mem_Ioi]; linarith [eps_pos]) hw
+
+theorem YeoJohnson.strictMonoOn_neg (p : YeoJohnson.Params ℝ) (hp : YeoJohnson.admissible p) :
+    StrictMonoOn (fun t => YeoJohnson.fwd p t) {x | p.nu + x * p.scale < eps} := by
+  have hs := YeoJohnson.scale_pos p hp
+  intro x hx y hy hxy
+  have hx' : p.nu + x * p.scale < eps := hx
+  have hy' : p.nu + y * p.scale < eps := hy
+  have hw : p.nu + x * p.scale < p.nu + y * p.scale := by nlinarith
+  show YeoJohnson.fwd p x < YeoJohnson.fwd p y
+  simp only [YeoJohnson.fwd, C01.YeoJohnson.fwdW_eq, if_neg (not_le.mpr hx'), if_neg (not_le.mpr hy')]
+  exact YeoJohnson.negF_strictMonoOn p.lam (show _ ∈ Iio (1 : ℝ) by simp only [mem_Iio]; linarith [eps_lt_one])
+    (show _ ∈ Iio (1 : ℝ) by simp only [mem_Iio]; linarith [eps_lt_one]) hw
+
+/-- all ordered pairs, junction included: `x₁ < x₂` implies `forward(x₁) < forward(x₂) + 3 EPS²` (3e-20, below the
+rounding error of the formula `((1+w)^lam - 1)/lam` near `w = EPS`) -/
+theorem YeoJohnson.forward_lt_add (p : YeoJohnson.Params ℝ) (hp : YeoJohnson.admissible p) {x1 x2 : ℝ}
+    (h : x1 < x2) : YeoJohnson.fwd p x1 < YeoJohnson.fwd p x2 + 3 * eps ^ 2 := by
+  have hs := YeoJohnson.scale_pos p hp
+  have hl1 : -1 ≤ p.lam := by have := hp.2.1; norm_num at this; exact this
+  have hl3 : p.lam ≤ 3 := by have := hp.2.2; norm_num at this; exact this
+  exact YeoJohnson.fwdW_lt_add hl1 hl3 (by nlinarith)
+
+/-- at the default `lam = 1` the transform is affine, `forward(x) = nu + scale x`: exactly increasing everywhere -/
+theorem YeoJohnson.fwd_lam_one (p : YeoJohnson.Params ℝ) (hl : p.lam = 1) (x : ℝ) :
+    YeoJohnson.fwd p x = p.nu + x * p.scale := by
+  have h0 : isclose0 (1 : ℝ) = false := by
+    simp only [isclose0, decide_eq_false_iff_not, absv_eq]; norm_num
+  have h2 : isclose2 (1 : ℝ) = false := by
+    simp only [isclose2, decide_eq_false_iff_not, absv_eq]; norm_num [abs_of_neg]
+  simp only [YeoJohnson.fwd, YeoJohnson.fwdW, hl, h0, h2, Bool.false_eq_true, if_false, transc_pow]
+  split_ifs <;> norm_num
+
+theorem YeoJohnson.strictMono_lam_one (p : YeoJohnson.Params ℝ) (hp : YeoJohnson.admissible p) (hl : p.lam = 1) :
+    StrictMono (fun t => YeoJohnson.fwd p t) := by
+  have hs := YeoJohnson.scale_pos p hp
+  intro x y hxy
+  show YeoJohnson.fwd p x < YeoJohnson.fwd p y
+  rw [YeoJohnson.fwd_lam_one p hl, YeoJohnson.fwd_lam_one p hl]
+  nlinarith
+
+/-- the `3 EPS²` allowance above cannot be dropped: at `lam = 3` (`nu = 0`, `scale = 1`) the exact formulas give
+`forward(EPS - 5e-31) > forward(EPS)` — the negative-branch formula ends ≈ 2e-31 above the value at which the
+positive-branch formula starts. A drop of that size is ≈ 1e-5 of the spacing of doubles at `1e-10`: it is the
+"equality only within rounding" of the property text, not an observable defect. -/
+theorem YeoJohnson.not_strictMono_lam_three :
+    ¬ StrictMono (fun t => YeoJohnson.fwd (⟨0, 1, 3⟩ : YeoJohnson.Params ℝ) t) := by
+  intro h
+  have hlt : (1e-10 - 5e-31 : ℝ) < 1e-10 := by norm_num
+  have h3 := h hlt
+  have h0 : isclose0 (3 : ℝ) = false := by
+    simp only [isclose0, decide_eq_false_iff_not, absv_eq]; norm_num
+  have h2 : isclose2 (3 : ℝ) = false := by
+    simp only [isclose2, decide_eq_false_iff_not, absv_eq]; norm_num
+  have c1 : ¬ (eps : ℝ) ≤ 0 + (1e-10 - 5e-31) * 1 := by unfold eps; norm_num
+  have c2 : (eps : ℝ) ≤ 0 + 1e-10 * 1 := by unfold eps; norm_num
+  simp only [YeoJohnson.fwd, YeoJohnson.fwdW, h0, h2, Bool.false_eq_true, if_false, transc_pow, if_neg c1, if_pos c2] at h3
+  rw [show (2 - 3 : ℝ) = -1 by norm_num, Real.rpow_neg_one, show (3 : ℝ) = ((3 : ℕ) : ℝ) by norm_num,
+    Real.rpow_natCast] at h3
+  norm_num at h3
+
+/-! ### Softmax — rows of any length `n`: the matrix of partial derivatives of `forward` is
+`∂y_i/∂x_j = δ_ij/x_i + 1/(1 - s)`, and `jacobian` is its determinant (matrix determinant lemma, every `n`) -/
+
+/-- coordinate `i` of the model's forward row is `fwdFn · i`, and its partial derivative with respect to entry `j`
+(all other entries held fixed) is the `(i, j)` entry of `pdMat` -/
+theorem Softmax.partial_derivatives {n : ℕ} (x : Fin n → ℝ) (hpos : ∀ k, 0 < x k) (hs : ∑ k, x k < 1) (i j : Fin n) :
+    (∀ z : Fin n → ℝ, Softmax.fwdRow (List.ofFn z) = List.ofFn (Softmax.fwdFn z)) ∧
+    Softmax.pdMat x i j = (if i = j then 1 / x i else 0) + 1 / (1 - ∑ k, x k) ∧
+    HasDerivAt (fun t => Softmax.fwdFn (Function.update x j t) i) (Softmax.pdMat x i j) (x j) :=
+  ⟨Softmax.fwdRow_ofFn, rfl, Softmax.hasDerivAt_fwdFn x hpos hs i j⟩
+
+/-- general `n × n` determinant: `det(diag(1/x) + (1/(1-s)) 1 1ᵀ) = (1 + s/(1-s)) / ∏ x`, which is `jacRow` -/
+theorem Softmax.det_partial_derivatives {n : ℕ} (x : Fin n → ℝ) (hx : ∀ i, x i ≠ 0) :
+    (Softmax.pdMat x).det = Softmax.jacRow (List.ofFn x) := by
+  rw [Softmax.det_pdMat x hx]
+  simp only [Softmax.jacRow, sumL_eq, Softmax.prodL_eq, List.sum_ofFn, List.prod_ofFn]
+
+/-- on the list model: a row in the domain is accepted and `jacobian` returns the determinant of the executable
+matrix of partial derivatives (`pdEntry` of Model/C02), which is positive -/
+theorem Softmax.jacobian_eq_det (xs : List ℝ) (hd : Softmax.dom xs) :
+    Softmax.jacobian xs = .ok (Matrix.det (Matrix.of fun i j : Fin xs.length => C02.Softmax.pdEntry xs i j)) := by
+  have h1 : Softmax.anyNeg xs = false := by
+    unfold Softmax.anyNeg
+    rw [List.any_eq_false]
+    intro x hx
+    have := hd.1 x hx
+    simp [not_lt.mpr this.le]
+  have h2 : Softmax.sumTooBig xs = false := by
+    unfold Softmax.sumTooBig
+    rw [decide_eq_false_iff_not, not_lt]; exact hd.2
+  simp only [Softmax.jacobian, h1, h2, Bool.false_eq_true, if_false]
+  congr 1
+  have hM : (Matrix.of fun i j : Fin xs.length => C02.Softmax.pdEntry xs i j)
+      = Softmax.pdMat (fun k : Fin xs.length => xs[k]) := by
+    ext i j; exact Softmax.pdEntry_eq xs i j
+  have hx : ∀ i : Fin xs.length, xs[i] ≠ 0 := fun i => (hd.1 _ (List.getElem_mem i.isLt)).ne'
+  rw [hM, Softmax.det_pdMat _ hx, Softmax.sum_get, Softmax.prod_get]
+  simp only [Softmax.jacRow, sumL_eq, Softmax.prodL_eq]
+
+theorem Softmax.jacRow_pos (xs : List ℝ) (hd : Softmax.dom xs) : 0 < Softmax.jacRow xs := by
+  obtain ⟨hpos, hs⟩ := hd
+  rw [sumL_eq] at hs
+  have hs1 : 0 < 1 - xs.sum := by linarith [eps_pos]
+  have hs0 : 0 ≤ xs.sum := List.sum_nonneg fun x hx => (hpos x hx).le
+  have hp : 0 < xs.prod := List.prod_pos fun x hx => hpos x hx
+  simp only [Softmax.jacRow, sumL_eq, Softmax.prodL_eq]
+  have : 0 ≤ xs.sum / (1 - xs.sum) := div_nonneg hs0 hs1.le
+  exact div_pos (by linarith) hp
+
+theorem Softmax.jacobian_spec (xs : List ℝ) (hd : Softmax.dom xs) :
+    ∃ j, Softmax.jacobian xs = .ok j ∧ 0 < j ∧
+      j = Matrix.det (Matrix.of fun i k : Fin xs.length => C02.Softmax.pdEntry xs i k) := by
+  have h := Softmax.jacobian_eq_det xs hd
+  refine ⟨Softmax.jacRow xs, ?_, Softmax.jacRow_pos xs hd, ?_⟩
+  · have h1 : Softmax.anyNeg xs = false := by
+      unfold Softmax.anyNeg
+      rw [List.any_eq_false]
+      intro x hx
+      have := hd.1 x hx
+      simp [not_lt.mpr this.le]
+    have h2 : Softmax.sumTooBig xs = false := by
+      unfold Softmax.sumTooBig
+      rw [decide_eq_false_iff_not, not_lt]; exact hd.2
+    simp only [Softmax.jacobian, h1, h2, Bool.false_eq_true, if_false]
+  · have h1 : Softmax.anyNeg xs = false := by
+      unfold Softmax.anyNeg
+      rw [List.any_eq_false]
+      intro x hx
+      have := hd.1 x hx
+      simp [not_lt.mpr this.le]
+    have h2 : Softmax.sumTooBig xs = false := by
+      unfold Softmax.sumTooBig
+      rw [decide_eq_false_iff_not, not_lt]; exact hd.2
+    simp only [Softmax.jacobian, h1, h2, Bool.false_eq_true, if_false] at h
+    exact Except.ok.inj h
+
+/-- every partial derivative is positive on the domain: each output coordinate increases with each input entry -/
+theorem Softmax.partial_pos {n : ℕ} (x : Fin n → ℝ) (hpos : ∀ k, 0 < x k) (hs : ∑ k, x k < 1) (i j : Fin n) :
+    0 < Softmax.pdMat x i j := Softmax.pdMat_pos x hpos hs i j
+
+/-- 2-D arrays: every row in the domain ⇒ accepted, one determinant per row -/
+theorem Softmax.jacobianM_eq (rows : List (List ℝ)) (hd : ∀ r ∈ rows, Softmax.dom r) :
+    Softmax.jacobianM rows = .ok (rows.map Softmax.jacRow) := by
+  have h1 : rows.any Softmax.anyNeg = false := by
+    rw [List.any_eq_false]
+    intro r hr
+    have hdr := hd r hr
+    unfold Softmax.anyNeg
+    rw [Bool.not_eq_true, List.any_eq_false]
+    intro x hx
+    have := hdr.1 x hx
+    simp [not_lt.mpr this.le]
+  have h2 : rows.any Softmax.sumTooBig = false := by
+    rw [List.any_eq_false]
+    intro r hr
+    unfold Softmax.sumTooBig
+    rw [Bool.not_eq_true, decide_eq_false_iff_not, not_lt]; exact (hd r hr).2
+  simp only [Softmax.jacobianM, h1, h2, Bool.false_eq_true, if_false]
+
+/-! ### non-vacuity: every hypothesis above is met by concrete, non-trivial inputs -/
+
+example : Logit.jdom (⟨0, 0⟩ : Logit.Params ℝ) (1 / 2) := by
+  simp only [Logit.jdom, Logit.upper, transc_exp, Real.exp_zero, eps]; norm_num
+example : Log.dom (⟨0.1, some 10, 1e-10⟩ : Log.Params ℝ) 1 ∧ Log.jdom (⟨0.1, some 10, 1e-10⟩ : Log.Params ℝ) 1 := by
+  simp only [Log.dom, Log.jdom]; norm_num
+example : 0 < Log.bf (⟨0.1, some 10, 1e-10⟩ : Log.Params ℝ) :=
+  Log.bf_pos _ (fun b hb => by cases hb; norm_num)
+/-- a base below one is accepted by the constructor: the excluded case is inhabited -/
+example : (⟨0.1, some 0.5, 1e-10⟩ : Log.Params ℝ).base = some 0.5 ∧ (0 : ℝ) < 0.5 ∧ (0.5 : ℝ) < 1 := by norm_num
+example : BoxCox2.dom (⟨0.1, 0, 1e-10⟩ : BoxCox2.Params ℝ) (-0.05) ∧
+    BoxCox2.jdom (⟨0.1, 0, 1e-10⟩ : BoxCox2.Params ℝ) (-0.05) := by
+  simp only [BoxCox2.dom, BoxCox2.jdom]; norm_num
+/-- the guard excludes `x = 0` at the default parameters `nu = mininu` (the formula itself is defined there) -/
+example : BoxCox2.dom (⟨1e-10, 1, 1e-10⟩ : BoxCox2.Params ℝ) 0 ∧ ¬ BoxCox2.jdom (⟨1e-10, 1, 1e-10⟩ : BoxCox2.Params ℝ) 0 := by
+  simp only [BoxCox2.dom, BoxCox2.jdom]; norm_num
+example : (0 : ℝ) < (⟨0.3, 0.5, 1e-10⟩ : BoxCox2sym.Params ℝ).nu ∧
+    (⟨0.3, 0.5, 1e-10⟩ : BoxCox2sym.Params ℝ).mininu < |(-2 : ℝ)| + (⟨0.3, 0.5, 1e-10⟩ : BoxCox2sym.Params ℝ).nu := by
+  norm_num
+example : YeoJohnson.admissible (⟨-3, 1e-5, 2⟩ : YeoJohnson.Params ℝ) ∧
+    (⟨-3, 1e-5, 2⟩ : YeoJohnson.Params ℝ).nu + 7 * (⟨-3, 1e-5, 2⟩ : YeoJohnson.Params ℝ).scale ≠ eps := by
+  simp only [YeoJohnson.admissible, eps]; norm_num
+example : LogSinh.admissible (⟨-1, 0, 1⟩ : LogSinh.Params ℝ) := by
+  simp only [LogSinh.admissible, eps]; norm_num
+example : LogSinh.dom (⟨0, 0, 1⟩ : LogSinh.Params ℝ) 1 := by
+  simp only [LogSinh.dom, LogSinh.inDom, LogSinh.a, LogSinh.b, transc_exp, Real.exp_zero, eps, decide_eq_true_iff]
+  norm_num
+example : Reciprocal.jdom (⟨0.5, 1e-10⟩ : Reciprocal.Params ℝ) 3 := by simp only [Reciprocal.jdom]; norm_num
+example : Sinh.admissible (⟨-2, 1e-10⟩ : Sinh.Params ℝ) := by simp only [Sinh.admissible]; norm_num
+example : Manly.admissible (⟨0, 2⟩ : Manly.Params ℝ) ∧ Manly.admissible (⟨-5, 1e-10⟩ : Manly.Params ℝ) := by
+  simp only [Manly.admissible, eps]; norm_num
+example : Softmax.dom ([0.2, 0.3, 0.1] : List ℝ) := by
+  refine ⟨?_, ?_⟩
+  · intro x hx; simp only [List.mem_cons, List.not_mem_nil, or_false] at hx
+    rcases hx with rfl | rfl | rfl <;> norm_num
+  · simp only [Softmax.sumL, Softmax.sumFrom, eps]; norm_num
+example : (∀ k : Fin 2, (0 : ℝ) < ![0.2, 0.3] k) ∧ ∑ k : Fin 2, (![0.2, 0.3] : Fin 2 → ℝ) k < 1 := by
+  refine ⟨fun k => ?_, ?_⟩
+  · fin_cases k <;> norm_num
+  · norm_num [Fin.sum_univ_two]
+
 end HydroVerif.C02
